@@ -68,7 +68,7 @@ Example C10_nonvacuous : nonvac_check = true.
 Proof. vm_compute. reflexivity. Qed.
 
 (* ---------------- Marker, Requirement, Tag (theorems proved with their models; restated here) ---------------- *)
-Require C08 C09 C14.
+Require C08 C09 C14 Wheel.
 (* Marker: == is equality of the canonical strings (an equivalence), equal markers hash alike; str(m) reparses to an equal marker *)
 Theorem C10_marker_eq_is_string_eq a b : MkModel.marker_eq a b = true <-> MkModel.format_marker a = MkModel.format_marker b.
 Proof. exact (C09.C09_eq_is_str_eq a b). Qed.
@@ -186,3 +186,34 @@ Theorem C10_equal_requirements_markers_alike sa sb a b : ReqModel.Requirement sa
   end.
 Proof. exact (ReqMarkerEqP.equal_requirements_markers_alike sa sb a b). Qed.
 Print Assumptions C10_equal_requirements_markers_alike.
+
+(* ---------------- the remaining clauses, restated from the marker and requirement domains ---------------- *)
+(* equal Marker objects (plain ones, not only those inside a requirement) evaluate alike in every environment and have the same operands *)
+Theorem C10_equal_markers_evaluate_alike s1 s2 a b defaults ov : MkModel.Marker s1 = MkModel.MOk a -> MkModel.Marker s2 = MkModel.MOk b ->
+  MkModel.marker_eq a b = true -> MkEval.evaluate a defaults ov = MkEval.evaluate b defaults ov /\ MkModel.sides_l a = MkModel.sides_l b.
+Proof. exact (C09.C09_equal_markers_evaluate_alike s1 s2 a b defaults ov). Qed.
+Print Assumptions C10_equal_markers_evaluate_alike.
+(* equal requirements have equal parts: PEP 503-equal names, the same extras, the same clause keys, the same URL, the same marker string *)
+Theorem C10_equal_requirements_equal_parts a b : ReqModel.req_eq a b = true <->
+  Names.canon_name (ReqModel.q_name a) = Names.canon_name (ReqModel.q_name b) /\
+  (forall e, In e (ReqModel.q_extras a) <-> In e (ReqModel.q_extras b)) /\
+  (forall k, In k (map ReqModel.rq_ckey (ReqModel.q_specs a)) <-> In k (map ReqModel.rq_ckey (ReqModel.q_specs b))) /\
+  ReqModel.q_url a = ReqModel.q_url b /\
+  option_map MkModel.format_marker (ReqModel.q_marker a) = option_map MkModel.format_marker (ReqModel.q_marker b).
+Proof. exact (C08.C08_eq_semantics a b). Qed.
+Print Assumptions C10_equal_requirements_equal_parts.
+(* the hash of a Tag is a function of its stored (lower-cased) fields: tags whose fields agree after lower-casing hash alike, whatever
+   hash function is used (C10_tag_hash above only projects the first conjunct of Tag.__eq__; this is the statement with content) *)
+Theorem C10_tag_hash_of_equal_fields (h : list N * list N * list N -> N) i a p i' a' p' :
+  WheelModel.t_interp (WheelModel.mk_tag i a p) = WheelModel.t_interp (WheelModel.mk_tag i' a' p') ->
+  WheelModel.t_abi (WheelModel.mk_tag i a p) = WheelModel.t_abi (WheelModel.mk_tag i' a' p') ->
+  WheelModel.t_plat (WheelModel.mk_tag i a p) = WheelModel.t_plat (WheelModel.mk_tag i' a' p') ->
+  let x := WheelModel.mk_tag i a p in let y := WheelModel.mk_tag i' a' p' in
+  h (WheelModel.t_interp x, WheelModel.t_abi x, WheelModel.t_plat x) = h (WheelModel.t_interp y, WheelModel.t_abi y, WheelModel.t_plat y) /\
+  WheelModel.tag_eq h x y = true.
+Proof.
+  intros E1 E2 E3. cbv zeta. split; [now rewrite E1, E2, E3|].
+  unfold WheelModel.tag_eq. rewrite E1, E2, E3, N.eqb_refl. cbn [andb].
+  rewrite !Wheel.str_eqb_refl. reflexivity.
+Qed.
+Print Assumptions C10_tag_hash_of_equal_fields.
